@@ -1,6 +1,6 @@
 #!/bin/bash
 # Apply every seeded break of this directory to a scratch worktree of /repo, run the quick check (expects VIOLATION, exit 1)
-# and the repository's own tests that concern the module.  usage: run.sh [jobs] [patch-name ...]
+# and the repository's own tests that concern the module.  usage: [SUITE=0] run.sh [jobs] [patch-name ...]
 set -u
 PROP=C18; DIR=$(cd "$(dirname "$0")" && pwd); WT=/tmp/wt-selfcheck-c18; JOBS=${1:-8}; shift || true
 TESTS="src/grid/tests/test_ngrid.py"; KEXPR="test"
@@ -10,7 +10,8 @@ for n in $names; do
   git -C $WT checkout -- . ; git -C $WT apply $DIR/$n.diff || { echo "$n: PATCH DOES NOT APPLY"; continue; }
   out=$(cd /verif && GRID_REPO=$WT ./check $PROP --tier quick --jobs $JOBS 2>&1); rc=$?
   clauses=$(echo "$out" | grep -A1 '^VIOLATION' | grep -o 'clause=[^ ]*' | sort | uniq -c | awk '{printf "%s(x%s) ", $2, $1}')
-  suite=$(cd $WT && PYTHONPATH=$WT/src timeout 1500 /venv/bin/python -m pytest -q -x -p no:cacheprovider $TESTS -k "$KEXPR" -n 4 2>&1 | tail -1)
+  suite="(skipped: SUITE=0)"
+  [ "${SUITE:-1}" = 1 ] && suite=$(cd $WT && PYTHONDONTWRITEBYTECODE=1 PYTHONPATH=$WT/src timeout 3000 /venv/bin/python -m pytest -q -x -p no:cacheprovider $TESTS -k "$KEXPR" -n ${SUITE_JOBS:-4} 2>&1 | tail -1)
   echo "$n | check rc=$rc | $clauses| suite: $suite"
 done
 git -C $WT checkout -- . ; git -C /repo worktree remove --force $WT
